@@ -59,7 +59,7 @@ def mutate(rng, toks):
 
 def run(chk):
     quick = chk.tier == "quick"
-    n = 120 if quick else 3000
+    n = 120 if quick else 1000
     broken = chk.proof_obligations(["Corr/Front.vo"])
     chk.coverage["rule"] = (
         "(a) token-level mutations (delete / duplicate / swap / replace one token) of valid front-profile token lists and the out-of-domain literals "
